@@ -39,7 +39,7 @@ type Tracer struct {
 	frames   []*frame
 
 	// OnStep, if set, is called for every executed step (used for the nested static-call clause).
-	OnStep func(op vm.OpCode, depth int)
+	OnStep func(op vm.OpCode, depth int, stack *vm.Stack)
 	// OnLeave is called when execution is seen back at (or above) a depth after deeper frames ran.
 	started, ended bool
 	EndGasUsed     uint64
@@ -133,7 +133,7 @@ func (t *Tracer) CaptureState(env *vm.EVM, pc uint64, op vm.OpCode, gas, cost ui
 		}
 	}
 	if t.OnStep != nil {
-		t.OnStep(op, depth)
+		t.OnStep(op, depth, stack)
 	}
 	return nil
 }
